@@ -79,6 +79,8 @@ func c12Requests() []req {
 		{"write parse", []string{"write", "parse"}, yml},
 		{"write conv", []string{"write", "conv", "-c", "cmt"}, yml},
 		{"write bad", []string{"write"}, "- values: []\n"},
+		{"write too long", []string{"write"}, "- chord: {degree: \"1\", name: \"\"}\n  values: [\"300000\"]\n"}, // refused when the file is rendered
+		{"write event too long track 2", []string{"write", "event", "--track", "2"}, "- chord: {degree: \"1\", name: \"\"}\n  values: [\"200000\"]\n- values: [\"200000\"]\n"},
 		{"info attr list", []string{"info", "attr", "list"}, ""},
 		{"info attr describe", []string{"info", "attr", "describe", "-t", "Minor7", "-r", "C#", "-s"}, ""},
 		{"info chord list", []string{"info", "chord", "list"}, ""},
